@@ -56,19 +56,33 @@ def strip_comments(src):
     return src
 
 
+def prop_modules(pid):
+    """the property's proof modules: Props/<pid>.lean and extensions Props/<pid><Suffix>.lean (e.g. C03TU, C05Complete)"""
+    d = os.path.join(LEAN, "CmrProofs", "Props")
+    mods = []
+    if os.path.isdir(d):
+        for f in sorted(os.listdir(d)):
+            m = re.fullmatch(re.escape(pid) + r"([A-Za-z]\w*)?\.lean", f)
+            if m:
+                mods.append(f[:-5])
+    return mods
+
+
 def prop_theorems(pid):
+    """-> (path of the main file, [fully qualified theorem names of all the property's modules])"""
     f = os.path.join(LEAN, "CmrProofs", "Props", pid + ".lean")
-    if not os.path.exists(f):
-        return f, []
-    src = strip_comments(open(f).read())
-    ns = re.findall(r"^namespace\s+(\S+)", src, flags=re.M)
-    prefix = (ns[0] + ".") if ns else ""
-    return f, [prefix + n for n in re.findall(r"^theorem\s+(\S+)", src, flags=re.M)]
+    thms = []
+    for mod in prop_modules(pid):
+        src = strip_comments(open(os.path.join(LEAN, "CmrProofs", "Props", mod + ".lean")).read())
+        ns = re.findall(r"^namespace\s+(\S+)", src, flags=re.M)
+        prefix = (ns[0] + ".") if ns else ""
+        thms += [prefix + n for n in re.findall(r"^theorem\s+(\S+)", src, flags=re.M)]
+    return f, thms
 
 
 def lean_sources_for(pid):
     """all .lean files the property file transitively imports inside this project"""
-    seen, todo = set(), [os.path.join(LEAN, "CmrProofs", "Props", pid + ".lean")]
+    seen, todo = set(), [os.path.join(LEAN, "CmrProofs", "Props", m + ".lean") for m in (prop_modules(pid) or [pid])]
     while todo:
         f = todo.pop()
         if f in seen or not os.path.exists(f):
@@ -90,9 +104,10 @@ def audit_proofs(pid):
     if not thms:
         res["problems"].append("no property theorems found in " + f)
         return res
-    rc, out = lake(["build", "CmrProofs.Props." + pid])
+    mods = prop_modules(pid)
+    rc, out = lake(["build"] + ["CmrProofs.Props." + m for m in mods])
     if rc != 0:
-        res["problems"].append("lake build CmrProofs.Props.%s failed:\n%s" % (pid, out[-3000:]))
+        res["problems"].append("lake build %s failed:\n%s" % (" ".join("CmrProofs.Props." + m for m in mods), out[-3000:]))
         return res
     for src in lean_sources_for(pid):
         txt = strip_comments(open(src).read())
@@ -102,7 +117,8 @@ def audit_proofs(pid):
     auditf = os.path.join(LEAN, ".lake", "audit_%s.lean" % pid)
     os.makedirs(os.path.dirname(auditf), exist_ok=True)
     with open(auditf, "w") as fh:
-        fh.write("import CmrProofs.Props.%s\n" % pid)
+        for m in mods:
+            fh.write("import CmrProofs.Props.%s\n" % m)
         for t in thms:
             fh.write("#print axioms %s\n" % t)
     p = subprocess.run(["lake", "env", "lean", auditf], cwd=LEAN, stdout=subprocess.PIPE, stderr=subprocess.STDOUT, text=True)
@@ -129,6 +145,31 @@ def audit_proofs(pid):
     res["discharged"] = discharged
     res["ok"] = not res["problems"] and discharged == len(thms)
     return res
+
+
+KERNEL_PIDS = ("C08", "C11", "C13")
+
+
+def audit_kernels(proof):
+    """Translation tie: regenerate lean/CmrGen/Kernels.lean from the working tree, re-check Props/Kernels.lean, merge into `proof`.
+    When it no longer checks, search the real C kernels for a concrete failing input."""
+    import kernels
+    ok, out = kernels.regenerate()
+    res = audit_proofs("Kernels") if ok else dict(ok=False, obligations=0, discharged=0, theorems=[], axioms=[],
+                                                 problems=["translator refused a kernel: " + out])
+    proof["obligations"] += res["obligations"]
+    proof["discharged"] += res["discharged"]
+    proof["theorems"] += res["theorems"]
+    proof["axioms"] = sorted(set(proof["axioms"]) | set(res["axioms"]))
+    if not res["ok"]:
+        proof["ok"] = False
+        proof["problems"] += ["kernels: " + p for p in res["problems"]]
+        try:
+            proof["kernel_failures"] = kernels.search()
+        except Exception as ex:
+            proof["kernel_failures"] = []
+            proof["problems"].append("kernel search failed: %s" % ex)
+    return proof
 
 
 def leanchecker(pid):
@@ -566,6 +607,21 @@ def finish(run, proof, level_note, rule, extra_cov=None, assumptions=None):
         rc = 1
     # 2. proof obligations
     if proof is not None and not proof["ok"]:
+        # a kernel theorem broke: the search on the real C kernels may have found a concrete failing input
+        kf = proof.get("kernel_failures") or []
+        if kf:
+            d = os.path.join(OUT, "replays", pid)
+            os.makedirs(d, exist_ok=True)
+            path = os.path.join(d, "kernel-counterexample.txt")
+            with open(path, "w") as f:
+                f.write("# property=%s: theorem(s) about the regenerated scalar kernels (lean/CmrProofs/Props/Kernels.lean) no longer check;\n"
+                        "# failing inputs found by tools/kernels.py on the C kernels of the working tree:\n" % pid)
+                for x in kf:
+                    f.write(x + "\n")
+                for p in proof["problems"]:
+                    f.write("# " + p.replace("\n", "\n# ")[:3000] + "\n")
+            out_lines.append("VIOLATION property=%s replay=%s" % (pid, path))
+            rc = 1
         if rc == 0:
             d = os.path.join(OUT, "replays", pid)
             os.makedirs(d, exist_ok=True)
